@@ -50,12 +50,55 @@ def short(obj, n=400):
     return s if len(s) <= n else s[:n] + "..."
 
 
+def typed_encode(o):
+    """like jsonable, but numpy scalars / 0-d arrays keep their type (replays must present the same representation)"""
+    if isinstance(o, dict):
+        return {str(k): typed_encode(v) for k, v in o.items()}
+    if isinstance(o, tuple):
+        return {"__tuple__": [typed_encode(v) for v in o]}
+    if isinstance(o, list):
+        return [typed_encode(v) for v in o]
+    if isinstance(o, np.ndarray) and o.ndim == 0:
+        return {"__np0d__": str(o.dtype), "v": o.item()}
+    if isinstance(o, np.ndarray):
+        return {"__nparr__": str(o.dtype), "v": o.tolist()}
+    if isinstance(o, np.generic) and not isinstance(o, np.float64):
+        return {"__npscalar__": type(o).__name__, "v": o.item()}
+    if isinstance(o, np.float64):
+        return {"__npscalar__": "float64", "v": float(o)}
+    if isinstance(o, float) and (o != o or o in (float("inf"), float("-inf"))):
+        return {"__float__": repr(o)}
+    if isinstance(o, (str, int, float, bool)) or o is None:
+        return o
+    return jsonable(o)
+
+
+def typed_decode(o):
+    if isinstance(o, list):
+        return [typed_decode(v) for v in o]
+    if isinstance(o, dict):
+        if "__tuple__" in o:
+            return tuple(typed_decode(v) for v in o["__tuple__"])
+        if "__np0d__" in o:
+            return np.array(o["v"], dtype=o["__np0d__"])
+        if "__nparr__" in o:
+            return np.array(o["v"], dtype=o["__nparr__"])
+        if "__npscalar__" in o:
+            return getattr(np, o["__npscalar__"])(o["v"])
+        if "__float__" in o:
+            return float(o["__float__"])
+        return {k: typed_decode(v) for k, v in o.items()}
+    return o
+
+
 def jsonable(o):
     if isinstance(o, dict):
         return {str(k): jsonable(v) for k, v in o.items()}
     if isinstance(o, (list, tuple)):
         return [jsonable(v) for v in o]
     if isinstance(o, np.ndarray):
+        if o.ndim == 0:
+            return jsonable(o.item())
         return [jsonable(v) for v in o.tolist()]
     if isinstance(o, (np.floating,)):
         return float(o)
@@ -145,6 +188,9 @@ class Ctx(object):
             "property": self.prop_id, "config": self.config, "what": what, "detail": str(detail)[:2000],
             "case": jsonable(self.case), "extra": jsonable(extra) if extra is not None else None,
             "seed": self.seed, "tier": self.tier, "worker": self.worker, "case_index": self.case_index,
+            # what a replay needs to present the very same objects: typed case + the counters the representation
+            # choices (Ctx.trains, vary_interval, vary_indices, read-only freezing) are derived from
+            "case_typed": typed_encode(self.case), "evals0": self.evals, "cut_calls0": getattr(self, "case_cut0", 0),
         })
 
     def expect(self, cond, what, detail=None, extra=None):
@@ -457,6 +503,7 @@ def run_cases(prop, ctx, cases, soft_deadline, case_timeout=60):
         ctx.case = case
         ctx.case_index = idx
         ctx.evals += 1
+        ctx.case_cut0 = ctx.cut_calls
         signal.setitimer(signal.ITIMER_REAL, case_timeout)
         try:
             prop.check(case, ctx)
